@@ -85,10 +85,14 @@ func (c *stockCounters) add(sent, errs, recv int) { c.sent += sent; c.sendErr +=
 //go:norace
 func (c *stockCounters) snapshot() stockCounters { return *c }
 
-func stockSender(b *el.Broker, cnt *stockCounters, id, n int, gatedEvery int) {
+func stockSender(b *el.Broker, cnt *stockCounters, id, n int, gatedEvery int, rotEvery int) {
 	for i := 0; i < n; i++ {
 		simrt.Yield("stock:send")
 		var payload interface{} = &stockPayload{ID: id*100 + i, Name: fmt.Sprintf("name-%d-%d", id, i), Secret: "s3cr3t", Note: "note"}
+		if rotEvery > 0 && i%rotEvery == rotEvery-1 {
+			// an in-band key rotation: every encrypt filter the event reaches rotates and consumes it
+			payload = &encRotate{w: newAead(keyBytes(20+id), fmt.Sprintf("inband-%d-%d", id, i)), salt: []byte("s2"), info: []byte("i2")}
+		}
 		if gatedEvery > 0 && i%gatedEvery == 0 {
 			payload = &gated.Payload{ID: fmt.Sprintf("g%d", id%2), Flush: i%2 == 1, Detail: map[string]interface{}{"i": i}}
 		}
@@ -157,7 +161,12 @@ func runStock(rc *RunCtx) {
 	cnt := &stockCounters{}
 
 	// the catalogue
-	ef := &encrypt.Filter{Wrapper: newAead(keyBytes(1), "k1"), HmacSalt: []byte("salt"), HmacInfo: []byte("info")}
+	// two encrypt filters configured from the SAME salt / info slices (one configuration value
+	// handed to both), the second one HMACs sensitive fields
+	salt, info := []byte("salt"), []byte("info")
+	ef := &encrypt.Filter{Wrapper: newAead(keyBytes(1), "k1"), HmacSalt: salt, HmacInfo: info}
+	ef2 := &encrypt.Filter{Wrapper: newAead(keyBytes(2), "k2"), HmacSalt: salt, HmacInfo: info,
+		FilterOperationOverrides: map[encrypt.DataClassification]encrypt.FilterOperation{encrypt.SensitiveClassification: encrypt.HmacSha256Operation}}
 	gf := &gated.Filter{Broker: b, Expiration: 50 * time.Millisecond}
 	src, _ := url.Parse("https://example.com/stock")
 	ce := &cloudevents.FormatterFilter{Source: src, Signer: func(ctx context.Context, b []byte) (string, error) { return "sig0", nil }, SignEventTypes: []string{"t"}}
@@ -180,6 +189,7 @@ func runStock(rc *RunCtx) {
 		"filter":  &el.Filter{Predicate: func(e *el.Event) (bool, error) { return true, nil }},
 		"filter2": &el.Filter{Predicate: func(e *el.Event) (bool, error) { return e.Payload != nil, nil }},
 		"encrypt": ef,
+		"encrypt2": ef2,
 		"gated":   gf,
 		"json":    &el.JSONFormatter{},
 		"jsonff":  &el.JSONFormatterFilter{Predicate: func(interface{}) (bool, error) { return true, nil }},
@@ -197,7 +207,7 @@ func runStock(rc *RunCtx) {
 			return
 		}
 	}
-	filters := []string{"filter", "filter2", "encrypt", "gated"}
+	filters := []string{"filter", "filter2", "encrypt", "gated", "encrypt2"}
 	jsonSinks := []string{"file", "w0", "w1", "chan", "fstdout", "fstderr"}
 	ceSinks := []string{"filece", "wce", "chan"}
 	nPipes := 1 + tp.Choose(4, "npipes")
@@ -225,7 +235,7 @@ func runStock(rc *RunCtx) {
 		for i, s := range ids {
 			nids[i] = el.NodeID(s)
 			switch s {
-			case "encrypt":
+			case "encrypt", "encrypt2":
 				usesEncrypt = true
 			case "ce":
 				usesCE = true
@@ -253,7 +263,11 @@ func runStock(rc *RunCtx) {
 		if usesGated {
 			ge = 1 + tp.Choose(3, "gatedevery")
 		}
-		sim.Spawn(fmt.Sprintf("sender%d", s), func() { stockSender(b, cnt, s, n, ge) })
+		re := 0
+		if usesEncrypt && tp.Choose(3, "inband-rotation") == 0 {
+			re = 1 + tp.Choose(3, "rotevery")
+		}
+		sim.Spawn(fmt.Sprintf("sender%d", s), func() { stockSender(b, cnt, s, n, ge, re) })
 	}
 	nControl := tp.Choose(3, "ncontrol")
 	for c := 0; c < nControl; c++ {
@@ -338,7 +352,7 @@ func usesEncryptBefore(pdesc []string, where string) bool {
 	for _, p := range pdesc {
 		if strings.HasSuffix(p, ">"+sink) {
 			found = true
-			if !strings.Contains(p, "encrypt>") {
+			if !strings.Contains(p, "encrypt>") && !strings.Contains(p, "encrypt2>") {
 				return false
 			}
 			// gated composites carry maps of details, not the secret field
